@@ -7,13 +7,13 @@ Local Open Scope N_scope.
 
 (* the property on the implementation's outputs: a block was accepted only if its header extends
    the parent: height, minimum gap (empty-block gap without transactions), not beyond the future
-   bound, recorded state root = parent root.  [c_parent_ts] is the parent BLOCK's timestamp: the
-   driver builds parents whose header and state timestamps coincide, except in genesis scenarios
-   where it passes the genesis header timestamp. *)
+   bound, recorded state root = parent root.  [c_parent_block_ts] is the timestamp in the
+   parent block's HEADER (the model reads [c_parent_ts], the one stored in the parent state; they
+   coincide except for the genesis block). *)
 Definition header_ok (c : case) : bool :=
   negb (c_no_height c) && (c_block_h c =? c_parent_h c + 1)
-  && (Z.of_N (c_parent_ts c) + r_min_gap (c_rules c) <=? c_block_ts c)%Z
-  && (match c_txs c with [] => (Z.of_N (c_parent_ts c) + r_min_empty_gap (c_rules c) <=? c_block_ts c)%Z | _ => true end)
+  && (Z.of_N (c_parent_block_ts c) + r_min_gap (c_rules c) <=? c_block_ts c)%Z
+  && (match c_txs c with [] => (Z.of_N (c_parent_block_ts c) + r_min_empty_gap (c_rules c) <=? c_block_ts c)%Z | _ => true end)
   && negb (c_too_late c) && c_root_ok c.
 
 Definition spec_ok (c : case) : bool :=
